@@ -224,3 +224,187 @@ Proof.
   destruct (get_or_new s a) as [o s1]. replace (bal o - d) with (bal o + - d) by lia.
   replace (av_bal (vget_or_new (V s) a) - d) with (av_bal (vget_or_new (V s) a) + - d) by lia. exact H.
 Qed.
+
+(** *** reads through getStateObject *)
+Lemma sim_read s a (f : option obj -> ret) (g : option aview -> ret) :
+  (forall o, f o = g (option_map aview_of o)) ->
+  snd (read_obj s a f) = g (v_acct (V s) a) /\ veq (V (fst (read_obj s a f))) (V s) /\ ok s (fst (read_obj s a f)).
+Proof.
+  intro H. unfold read_obj. rewrite get_obj_eq. cbn [fst snd].
+  split; [apply H|]. split; [apply V_loaded|apply ok_loaded].
+Qed.
+
+Ltac read_tac :=
+  unfold sim_op; cbn [step_core vstep fst snd];
+  match goal with |- snd (read_obj ?s ?a ?f) = ?r /\ _ =>
+    let H := fresh in
+    pose proof (sim_read s a f (fun x => match x with Some y => _ | None => _ end)) as H;
+    apply H; intros [o|]; reflexivity
+  end.
+
+Lemma sim_get_balance s a : sim_op (OGetBalance a) s.
+Proof.
+  unfold sim_op; cbn [step_core vstep fst snd].
+  apply (sim_read s a _ (fun x => match x with Some y => [av_bal y] | None => [0] end)). intros [o|]; reflexivity.
+Qed.
+Lemma sim_get_nonce s a : sim_op (OGetNonce a) s.
+Proof.
+  unfold sim_op; cbn [step_core vstep fst snd].
+  apply (sim_read s a _ (fun x => match x with Some y => [av_nonce y] | None => [0] end)). intros [o|]; reflexivity.
+Qed.
+Lemma sim_get_code_hash s a : sim_op (OGetCodeHash a) s.
+Proof.
+  unfold sim_op; cbn [step_core vstep fst snd].
+  apply (sim_read s a _ (fun x => match x with Some y => [av_code y] | None => [NOHASH] end)). intros [o|]; reflexivity.
+Qed.
+Lemma sim_get_code s a : sim_op (OGetCode a) s.
+Proof.
+  unfold sim_op; cbn [step_core vstep fst snd].
+  apply (sim_read s a _ (fun x => match x with Some y => [av_code y] | None => [0] end)). intros [o|]; reflexivity.
+Qed.
+Lemma sim_get_code_size s a : sim_op (OGetCodeSize a) s.
+Proof.
+  unfold sim_op; cbn [step_core vstep fst snd].
+  apply (sim_read s a _ (fun x => match x with Some y => [av_code y] | None => [0] end)). intros [o|]; reflexivity.
+Qed.
+Lemma sim_has_suicided s a : sim_op (OHasSuicided a) s.
+Proof.
+  unfold sim_op; cbn [step_core vstep fst snd].
+  apply (sim_read s a _ (fun x => match x with Some y => rbool (av_suic y) | None => rbool false end)). intros [o|]; reflexivity.
+Qed.
+Lemma sim_exist s a : sim_op (OExist a) s.
+Proof.
+  unfold sim_op; cbn [step_core vstep fst snd].
+  apply (sim_read s a _ (fun x => match x with Some y => rbool true | None => rbool false end)). intros [o|]; reflexivity.
+Qed.
+Lemma sim_empty s a : sim_op (OEmpty a) s.
+Proof.
+  unfold sim_op; cbn [step_core vstep fst snd].
+  apply (sim_read s a _ (fun x => match x with Some y => rbool (av_empty y) | None => rbool true end)). intros [o|]; reflexivity.
+Qed.
+
+(** *** GetState / GetCommittedState (fill OriginStorage) *)
+Lemma recache s a o o' :
+  lookup s a = Some o -> aview_of o' = aview_of o ->
+  (forall k, st (kp s) a o' k = st (kp s) a o k) -> (forall k, comm (kp s) a o' k = comm (kp s) a o k) ->
+  veq (V (set_obj (snd (get_obj s a)) a o')) (V s) /\ ok s (set_obj (snd (get_obj s a)) a o').
+Proof.
+  intros Hl Ha Hs Hc.
+  assert (HV : veq (V (set_obj (snd (get_obj s a)) a o')) (V s)).
+  { eapply veq_trans; [apply V_set_obj|]. rewrite kp_loaded.
+    eapply veq_trans; [apply vput_veq, V_loaded|].
+    apply vput_same; simpl; intros; rewrite Hl; simpl; auto. rewrite Ha. reflexivity. }
+  split; [exact HV|]. apply ok_same; [apply kp_loaded | apply journal_loaded | exact HV].
+Qed.
+
+Lemma sim_get_state s a k : sim_op (OGetState a k) s.
+Proof.
+  unfold sim_op; cbn [step_core vstep fst snd]. unfold get_state.
+  rewrite get_obj_eq. simpl v_acct. destruct (lookup s a) as [o|] eqn:Hl; cbn [fst snd option_map].
+  - rewrite kp_loaded. split; [simpl; rewrite Hl; reflexivity|].
+    apply (recache s a o); [exact Hl | apply aview_cache_state | intro; apply st_cache_state | intro; apply comm_cache_state].
+  - split; [reflexivity|]. split; [apply V_loaded|apply ok_loaded].
+Qed.
+
+Lemma sim_get_committed s a k : sim_op (OGetCommittedState a k) s.
+Proof.
+  unfold sim_op; cbn [step_core vstep fst snd]. unfold get_committed.
+  rewrite get_obj_eq. simpl v_acct. destruct (lookup s a) as [o|] eqn:Hl; cbn [fst snd option_map].
+  - rewrite kp_loaded. split; [simpl; rewrite Hl; reflexivity|].
+    apply (recache s a o); [exact Hl | apply aview_cache_origin | intro; apply st_cache_origin | intro; apply comm_cache_origin].
+  - split; [reflexivity|]. split; [apply V_loaded|apply ok_loaded].
+Qed.
+
+(** *** SetState *)
+Lemma sim_set_state s a k w : sim_op (OSetState a k w) s.
+Proof.
+  unfold sim_op. cbn [step_core vstep fst snd]. split; [reflexivity|]. unfold set_state.
+  destruct (get_or_new_spec s a) as (Ho & Hl & HV & Hok).
+  destruct (get_or_new s a) as [o s1]. cbn [fst snd] in *. subst o. set (o := obj_or_blank s a) in *.
+  assert (K : kp s1 = kp s) by apply Hok.
+  set (o1 := cache_state (kp s1) a o k).
+  assert (Ha1 : aview_of o1 = aview_of o) by apply aview_cache_state.
+  assert (Hs1 : forall k', st (kp s1) a o1 k' = st (kp s1) a o k') by (intro; apply st_cache_state).
+  assert (Hc1 : forall k', comm (kp s1) a o1 k' = comm (kp s1) a o k') by (intro; apply comm_cache_state).
+  (* the view after get_or_new, explicitly *)
+  assert (HV1 : veq (V s1) (vset_acct (V s) a (Some (vget_or_new (V s) a)))).
+  { eapply veq_trans; [exact HV|]. apply (vput_field s a (fun o => o) (fun x => x)); reflexivity. }
+  destruct (Z.eqb_spec (st (kp s1) a o k) w) as [Heq|Hne].
+  - (* unchanged value: nothing is journaled *)
+    assert (HV2 : veq (V (set_obj s1 a o1)) (V s1)).
+    { eapply veq_trans; [apply V_set_obj|]. apply vput_same; simpl; intros; rewrite Hl; simpl; auto.
+      rewrite Ha1. reflexivity. }
+    split.
+    + eapply veq_trans; [exact HV2|]. eapply veq_trans; [exact HV1|].
+      split; vcases a0 a. destruct (Z.eqb_spec k0 k); [subst|reflexivity].
+      rewrite K. symmetry. apply st_obj_or_blank.
+    + eapply ok_trans; [exact Hok|]. apply ok_same; [reflexivity|reflexivity|exact HV2].
+  - destruct (journaled_set s1 a o (EStorage a k (st (kp s1) a o k)) (with_dirty o1 k w) Hl) as (HV2 & Hok2).
+    { intro v. cbn [vundo vput vset_acct vset_stor vset_comm v_acct v_stor]. rewrite upd_same.
+      split; vcases a0 a.
+      - change (aview_of (with_dirty o1 k w)) with (aview_of o1). rewrite Ha1. reflexivity.
+      - rewrite Z.eqb_refl, st_with_dirty. destruct (Z.eqb_spec k0 k); [subst; reflexivity|apply Hs1].
+      - rewrite comm_with_dirty. apply Hc1. }
+    split; [|eapply ok_trans; [exact Hok|exact Hok2]].
+    eapply veq_trans; [exact HV2|]. eapply veq_trans; [apply vput_veq, HV1|].
+    split; vcases a0 a.
+    + change (aview_of (with_dirty o1 k w)) with (aview_of o1). rewrite Ha1. unfold o. rewrite aview_obj_or_blank. reflexivity.
+    + rewrite st_with_dirty. destruct (Z.eqb_spec k0 k); [reflexivity|].
+      rewrite Hs1, K. apply st_obj_or_blank.
+    + rewrite comm_with_dirty, Hc1, K. apply comm_obj_or_blank.
+Qed.
+
+(** *** Suicide *)
+Lemma sim_suicide s a : sim_op (OSuicide a) s.
+Proof.
+  unfold sim_op. cbn [step_core vstep]. unfold suicide. rewrite get_obj_eq. simpl v_acct.
+  destruct (lookup s a) as [o|] eqn:Hl; cbn [fst snd option_map].
+  - split; [reflexivity|].
+    assert (Hl1 : lookup (snd (get_obj s a)) a = Some o) by (rewrite lookup_loaded; exact Hl).
+    destruct (journaled_set _ a o (ESuicide a (suicided o) (bal o)) (with_bal (with_suicided o true) 0) Hl1)
+      as (HV2 & Hok2).
+    { intro v. apply (vundo_field _ a _ (fun o => with_bal (with_suicided o true) 0)
+                        (fun x => av_with_bal (av_with_suic x (suicided o)) (bal o))); try reflexivity.
+      destruct o; reflexivity. }
+    split; [|eapply ok_trans; [apply ok_loaded|exact Hok2]].
+    eapply veq_trans; [exact HV2|]. rewrite kp_loaded.
+    eapply veq_trans; [apply vput_veq, V_loaded|].
+    split; vcases a0 a; simpl; rewrite Hl; reflexivity.
+  - split; [reflexivity|]. split; [apply V_loaded|apply ok_loaded].
+Qed.
+
+(** *** CreateAccount — the only method that needs the usage protocol *)
+Lemma sim_create s a : wf_create (k_stor (kp s)) (V s) a -> sim_op (OCreateAccount a) s.
+Proof.
+  intros (Hbase & Hwf). unfold sim_op. cbn [step_core vstep fst snd]. split; [reflexivity|].
+  unfold create_account, create_object. rewrite get_obj_eq. simpl v_acct in *.
+  destruct (lookup s a) as [p|] eqn:Hl; cbn [option_map] in *.
+  - (* an object exists: resetObjectChange, balance carried over *)
+    set (s0 := snd (get_obj s a)).
+    assert (K0 : kp s0 = kp s) by apply kp_loaded.
+    set (nw := with_bal (new_obj 0 0 0) (bal p)).
+    assert (HV : veq (V (set_obj (set_obj (push s0 (EReset a p)) a (new_obj 0 0 0)) a nw))
+                     (vput (kp s) (V s) a nw)).
+    { eapply veq_trans; [apply V_set_obj|]. cbn [kp set_obj set_objs]. rewrite kp_push, K0.
+      eapply veq_trans; [apply vput_veq, V_set_obj|]. cbn [kp set_obj set_objs]. rewrite kp_push, K0.
+      eapply veq_trans; [apply vput_vput|]. apply vput_veq.
+      eapply veq_trans; [apply V_push|apply V_loaded]. }
+    split.
+    + eapply veq_trans; [exact HV|].
+      split; vcases a0 a; unfold st, comm; simpl; apply Hbase.
+    + split; [cbn [kp set_obj set_objs]; rewrite kp_push; exact K0|].
+      exists [EReset a p]. split.
+      { cbn [journal set_obj set_objs]. rewrite journal_push. unfold s0. rewrite journal_loaded. reflexivity. }
+      cbn [vunwind fold_left vundo]. eapply veq_trans; [apply vput_veq, HV|].
+      eapply veq_trans; [apply vput_vput|]. apply vput_lookup, Hl.
+  - (* no object: createObjectChange *)
+    rewrite (get_obj_none s a Hl). cbn [fst snd].
+    assert (HV : veq (V (set_obj (push s (ECreate a)) a (new_obj 0 0 0))) (vput (kp s) (V s) a blank_obj)).
+    { eapply veq_trans; [apply V_set_obj|]. cbn [kp set_obj set_objs]. rewrite kp_push. apply vput_veq, V_push. }
+    split.
+    + eapply veq_trans; [exact HV|].
+      split; vcases a0 a; unfold st, comm; simpl; apply Hbase.
+    + split; [cbn [kp set_obj set_objs]; apply kp_push|].
+      exists [ECreate a]. split; [cbn [journal set_obj set_objs]; rewrite journal_push; reflexivity|].
+      cbn [vunwind fold_left vundo]. eapply veq_trans; [apply vdrop_veq, HV|]. apply vdrop_vput_none, Hl.
+Qed.
